@@ -93,3 +93,56 @@ package fiber
 //@   ensures range: builtin(c) && c.ID == rangeConstraint ==> (result <==> len(c.Data) >= 2 && atoiOK(param) && atoiVal(c.Data[0]) <= atoiVal(param) && atoiVal(param) <= atoiVal(c.Data[1]))
 //@   ensures datetime: builtin(c) && c.ID == datetimeConstraint ==> (result <==> len(c.Data) >= 1 && timeParseOK(c.Data[0], param))
 //@   ensures regex: builtin(c) && c.ID == regexConstraint ==> (result <==> len(c.Data) >= 1 && c.RegexCompiler != nil && regexMatches(c.RegexCompiler, param))
+
+// ---------------------------------------------------------------------------------------------
+// Constraints AS DECLARED. The pattern is case-folded before it is parsed (the literals are compared with the folded
+// request path), but folding concerns the path, not what a constraint is told: the text of a regular expression, a
+// datetime layout, and the name a custom constraint was registered under keep the case of the pattern as written.
+// adoptConstraintData gives the parser P of the folded pattern the Data / RegexCompiler / Name of the parser D of the
+// pattern as declared: the k-th parameter segment of P takes them from the k-th parameter segment of D, constraint by
+// constraint ("k-th": pcount, the prefix count of parameter segments - the slot number of the matcher).
+// ---------------------------------------------------------------------------------------------
+// what a constraint is told: its data, the compiled expression, the name it is looked up by
+//@ macro conData(c, d) = (c.Data == d.Data && c.RegexCompiler == d.RegexCompiler && c.Name == d.Name)
+// segment qs of P and segment qt of D are the same parameter of the pattern, with as many constraints
+//@ macro paired(P, qs, D, qt) = (P[qs].IsParam && D[qt].IsParam && pcount(P, qs) == pcount(D, qt) && len(P[qs].Constraints) == len(D[qt].Constraints))
+//@ macro adoptedUpTo(P, D, J) = forall(qs, 0, len(P), forall(qt, 0, J, paired(P, qs, D, qt) ==> forall(qk, 0, len(P[qs].Constraints), conData(P[qs].Constraints[qk], D[qt].Constraints[qk]))))
+//@ macro adopted(P, D) = adoptedUpTo(P, D, len(D))
+// Two parses are apart: every constraint object belongs to one segment of one parse, once. Stated through a numbering:
+// conSide/conSeg/conIdx are UNINTERPRETED - nothing is assumed about them anywhere - so a clause with the hypothesis
+// constraintsApart(P, D) is proved for every numbering and therefore says "if SOME numbering gives every constraint object
+// of P its own (segment, position) and tells the objects of D from those of P", i.e. "if the objects are pairwise
+// different" (the same device as pcountK/toffK; two 2-fold quantifiers instead of a 4-fold one: cheap to carry from one
+// state to the next). parseRoute allocates every Constraint it returns; that fact is not exported by its contract (the
+// element heap of []*Constraint is framed as a whole there), so apartness is the HYPOTHESIS of the clauses below and
+// of register's / addPrefixToRoute's clause, not discharged.
+//@ fn conSide(c ref) int
+//@ fn conSeg(c ref) int
+//@ fn conIdx(c ref) int
+//@ macro constraintsApart(P, D) = forall(s1, 0, len(P), forall(k1, 0, len(P[s1].Constraints), conSide(P[s1].Constraints[k1]) == 0 && conSeg(P[s1].Constraints[k1]) == s1 && conIdx(P[s1].Constraints[k1]) == k1)) &&
+//@ ..  forall(t3, 0, len(D), forall(k4, 0, len(D[t3].Constraints), conSide(D[t3].Constraints[k4]) == 1))
+//@ macro countedPair(P, D) = (pcountDef(P) && pcountMonotone(P) && pcountDef(D) && pcountMonotone(D) && constraintsApart(P, D))
+// THE clause of the property: the constraints that the matcher checks (those of P) say what the pattern declares (D)
+//@ macro dataAsDeclared(P, D) = (countedPair(P, D) ==> adopted(P, D))
+
+//@ func (*routeParser).adoptConstraintData
+//@   props C02 C03
+// frame: only what a constraint is told; the parsers, their segments, the constraint lists, kinds and custom constraints stay
+//@   modifies Constraint.Data, Constraint.RegexCompiler, Constraint.Name
+//@   loop 1
+//@     invariant declared-index: 0 <= j && j <= len(declared.segs) && rangeindex + 1 <= len(parser.segs)
+//@     invariant as-many-parameters-consumed: countedPair(parser.segs, declared.segs) ==> pcount(declared.segs, j) == pcount(parser.segs, rangeindex + 1)
+//@     invariant adopted-so-far: countedPair(parser.segs, declared.segs) ==> adoptedUpTo(parser.segs, declared.segs, j)
+//@     invariant declared-side-kept: countedPair(parser.segs, declared.segs) ==> forall(t, 0, len(declared.segs), forall(k, 0, len(declared.segs[t].Constraints), conData(declared.segs[t].Constraints[k], old(declared.segs[t].Constraints[k]))))
+//@   loop 2
+//@     invariant declared-index: 0 <= j && j <= len(declared.segs)
+//@     invariant as-many-parameters-consumed: countedPair(parser.segs, declared.segs) ==> pcount(declared.segs, j) == pcount(parser.segs, rangeindex + 1)
+//@     invariant adopted-so-far: countedPair(parser.segs, declared.segs) ==> adoptedUpTo(parser.segs, declared.segs, j)
+//@   loop 3
+//@     invariant source-is-the-partner: 1 <= j && j <= len(declared.segs) && src == declared.segs[j-1] && src.IsParam && seg.IsParam && len(src.Constraints) == len(seg.Constraints) && rangeindex + 1 <= len(seg.Constraints)
+//@     invariant segment-of-the-receiver: countedPair(parser.segs, declared.segs) ==> exists(s0, 0, len(parser.segs), parser.segs[s0] == seg && pcount(parser.segs, s0) == pcount(declared.segs, j - 1))
+//@     invariant adopted-so-far: countedPair(parser.segs, declared.segs) ==> adoptedUpTo(parser.segs, declared.segs, j - 1)
+//@     invariant this-segment-so-far: countedPair(parser.segs, declared.segs) ==> forall(k, 0, rangeindex + 1, conData(seg.Constraints[k], src.Constraints[k]))
+//@     invariant declared-side-kept: countedPair(parser.segs, declared.segs) ==> forall(t, 0, len(declared.segs), forall(k, 0, len(declared.segs[t].Constraints), conData(declared.segs[t].Constraints[k], old(declared.segs[t].Constraints[k]))))
+//@   ensures data-as-declared: dataAsDeclared(parser.segs, declared.segs)
+//@   ensures declared-side-kept: countedPair(parser.segs, declared.segs) ==> forall(t, 0, len(declared.segs), forall(k, 0, len(declared.segs[t].Constraints), conData(declared.segs[t].Constraints[k], old(declared.segs[t].Constraints[k]))))
